@@ -519,7 +519,7 @@ fn long_runs_inner(w: &mut Worker) {
 /// script line by line, so that its `end` (and `else`) lines fall on every line index the called
 /// scripts use for theirs; closed by the generic `end` and by the specific end command.
 fn library_calls_in_bodies(w: &mut Worker) {
-    let calls: [(&str, &str, Option<&str>); 9] = [
+    let calls: [(&str, &str, Option<&str>); 12] = [
         ("concat a b", "", Some("ab")),
         ("join_path a b", "", Some("a/b")),
         ("array_contains ${arr} b", "", Some("1")),
@@ -529,6 +529,10 @@ fn library_calls_in_bodies(w: &mut Worker) {
         ("set_from_array ${arr}", "r = set_size ${r}", Some("3")),
         ("array_concat ${arr} ${arr}", "r = array_length ${r}", Some("6")),
         ("array_contains ${arr} nothing", "", Some("false")),
+        // library scripts that stop with an error: the caller's blocks go on as written
+        ("array_join nohandle ,", "", Some("false")),
+        ("set_from_array nohandle", "", Some("false")),
+        ("array_concat ${arr} nohandle", "", Some("false")),
     ];
     let max_pad = w.tier.pick(20usize, 60usize);
     for (call, post, value) in calls {
@@ -695,7 +699,7 @@ pub fn crash_sig(_case: &Value, kind: &str) -> String {
     kind.to_string()
 }
 
-pub const RULE: &str = "programs: every well-nested forest of blocks {if with 0-2 elseif and optional else, while, for-in} with 1..N blocks and depth <= 3, an emit before / inside / after every block, leaf bodies with and without an emit, condition forms {value ${c}, ${c} and ${d}, ${c} or ${d} and ${e}, command `ans`, negated command `not ans`} uniform and rotating; single-block programs with the full product of every spelling of every keyword (alias, block-specific end, generic end, full command name), larger ones with rotated spellings so that every keyword occurrence meets each of its spellings; for every program every assignment of truth values to condition evaluations and of lengths {0,1,2} to for-in arrays with a bounded number of deviations from the default (false / empty) within a horizon of choice points. Plus long-running loop nests (while / for-in, single, nested two and three deep, two inner loops in sequence, an inner loop inside a branch with and without branches after it, a small if-block (no else / else taken / last elseif taken) in every iteration of a long loop that sits in a branch of an if / if-else / elseif chain whose later branches must not run; iteration counts {0,1,40,70,300} quick, up to 5000 thorough, plus a 150000-iteration (thorough 600000) loop inside a loop and inside an if with an else; generic and block-specific end) whose counters and exit trace are compared with the same nest walked in Rust. Every execution on the real runner is compared with a tree-walking interpreter of the same AST run on the same answers: emit trace with loop-variable values and final variables (loop variables after their loop and handle names masked). evaluations = rendered programs; transitions = executions; states = distinct (trace length, deviations) classes Library calls in bodies: while / for / if / else / elseif / function / three nested blocks around each of 9 calls of library commands that are scripts with blocks of their own, the block moved down the script by 0..20 (thorough 60) lines so that its end lines meet every line index, closed by `end` and by the specific end command: iteration counts, branch taken, result of the call";
+pub const RULE: &str = "programs: every well-nested forest of blocks {if with 0-2 elseif and optional else, while, for-in} with 1..N blocks and depth <= 3, an emit before / inside / after every block, leaf bodies with and without an emit, condition forms {value ${c}, ${c} and ${d}, ${c} or ${d} and ${e}, command `ans`, negated command `not ans`} uniform and rotating; single-block programs with the full product of every spelling of every keyword (alias, block-specific end, generic end, full command name), larger ones with rotated spellings so that every keyword occurrence meets each of its spellings; for every program every assignment of truth values to condition evaluations and of lengths {0,1,2} to for-in arrays with a bounded number of deviations from the default (false / empty) within a horizon of choice points. Plus long-running loop nests (while / for-in, single, nested two and three deep, two inner loops in sequence, an inner loop inside a branch with and without branches after it, a small if-block (no else / else taken / last elseif taken) in every iteration of a long loop that sits in a branch of an if / if-else / elseif chain whose later branches must not run; iteration counts {0,1,40,70,300} quick, up to 5000 thorough, plus a 150000-iteration (thorough 600000) loop inside a loop and inside an if with an else; generic and block-specific end) whose counters and exit trace are compared with the same nest walked in Rust. Every execution on the real runner is compared with a tree-walking interpreter of the same AST run on the same answers: emit trace with loop-variable values and final variables (loop variables after their loop and handle names masked). evaluations = rendered programs; transitions = executions; states = distinct (trace length, deviations) classes Library calls in bodies: while / for / if / else / elseif / function / three nested blocks around each of 9 calls of library commands that are scripts with blocks of their own, the block moved down the script by 0..20 (thorough 60) lines so that its end lines meet every line index, closed by `end` and by the specific end command: iteration counts, branch taken, result of the call The library calls include three that end with an error (array_join / set_from_array / array_concat on something that is no array)";
 pub const ASSUMPTIONS: &[&str] = &["ill-nested programs, arrays modified while iterated and jumps into blocks are outside the property", "value-form conditions of an if/elseif chain are computed in front of the block"];
 pub const EXHAUSTIVE: bool = true;
 pub const WALL_CAP_S: (u64, u64) = (55, 1500);
